@@ -45,7 +45,8 @@ def dense(M):
 
 
 def strongly_connected_counts(rng, n=None, nmin=2, nmax=14, real=None,
-                              density=None, maxc=30, asym=1.0):
+                              density=None, maxc=30, asym=1.0,
+                              allow_periodic=True):
     """Non-negative count matrix with a strongly connected transition graph:
     a random Hamiltonian cycle plus random extra entries, zeros and
     self-counts."""
@@ -60,11 +61,22 @@ def strongly_connected_counts(rng, n=None, nmin=2, nmax=14, real=None,
     for a, b in zip(perm, np.roll(perm, -1)):
         C[a, b] = rng.integers(1, maxc + 1)
     extra = rng.random((n, n)) < density
+    periodic = allow_periodic and rng.random() < 0.12
+    if periodic:
+        # periodic chains (several eigenvalues of modulus one): a bare
+        # directed ring, or extra edges only between consecutive classes
+        d = int(rng.integers(2, min(n, 4) + 1))
+        cls = np.empty(n, dtype=int)
+        cls[perm] = np.arange(n) % d
+        if n % d:
+            extra[:] = False          # ring of length n: period n
+        else:
+            extra &= (cls[None, :] == (cls[:, None] + 1) % d)
     vals = rng.integers(1, maxc + 1, size=(n, n)).astype(float)
     if asym != 1.0:
         vals = vals * np.where(rng.random((n, n)) < 0.5, asym, 1.0)
     C = np.where(extra & (C == 0), vals, C)
-    if rng.random() < 0.5:
+    if rng.random() < 0.5 or periodic:
         C[np.diag_indices(n)] = 0
     if real:
         C = C * rng.uniform(0.2, 1.5, size=(n, n))
